@@ -29,7 +29,7 @@ F_CLASS_CHAR = {"L": "a", "O": "1", "S": " ", "!": "!", "&": "&", "Q": '"', "q":
 # scanner state on the following lines (comment line inside a continuation, leading &, directive)
 F_SUFFIXES = ["", "'", '"', " x", "\nx = 1", "'\nx = 1", '"\nx = 1', "&\n&'\nx = 1", '&\n&"\nx = 1',
               "\n& x\ny = 2", "x\n! c\nx = 2", " &\n ! c\n & y\nz = 3", "\n#define X\n& y\nz = 3",
-              "'//\"!&\" ! c\nx = 1", " x &\n!$omp p\n"]
+              "'//\"!&\" ! c\nx = 1", " x &\n!$omp p\n", "\n!DIR$ IVDEP\nx = 1"]
 
 
 def transition_texts(dot_path, class_char=None, suffixes=None, splice_action="Splice", nl_action="NL"):
